@@ -13,7 +13,7 @@ SIZE = {"poset": 3, "semilattice": 2, "pend": 2, "diag": 3}
 def make_plan(ths, tier, rnd):
     plan = modelcheck.Plan()
     thorough = tier == "thorough"
-    for theory, (sig, stages) in ths.items():
+    for theory, (sig, stages) in modelcheck.select(ths, PROP, tier):
         api = histories.api_of(sig, modelcheck.module_path(theory))
         n = SIZE.get(theory, 2)
         for _ in range(200 if thorough else 40):
